@@ -215,8 +215,35 @@ func (st *state) client(c *kfake.Cluster, opts ...kgo.Opt) *kgo.Client {
 			return fmt.Sprintf("[%8.3fs] kgo: ", x.Elapsed().Seconds())
 		})))
 	}
-	st.cl = nscen.NewClient(st.x, "c", c, opts...)
+	st.cl = newClient(st.x, "c", c, opts...)
 	return st.cl
+}
+
+// newClient is nscen.NewClient with a bounded cleanup: if Close really hangs
+// forever, the cleanup's own (second) Close would hang the controller as well
+// and the execution - with its close-hang violation - would be lost in a job
+// timeout. The cleanup therefore calls Close from a goroutine and gives it
+// five virtual minutes; a Close still stuck then is left to netctl's
+// goroutine dump, which reports it and emits the result.
+func newClient(x *netctl.Exec, name string, c *kfake.Cluster, opts ...kgo.Opt) *kgo.Client {
+	cl, err := kgo.NewClient(append(nscen.BaseOpts(x, name, c), opts...)...)
+	if err != nil {
+		panic(fmt.Sprintf("kgo.NewClient(%s): %v", name, err))
+	}
+	x.OnCleanup(func() {
+		done := make(chan struct{})
+		go func() {
+			cl.Close()
+			close(done)
+		}()
+		tm := time.NewTimer(5 * time.Minute)
+		defer tm.Stop()
+		select {
+		case <-done:
+		case <-tm.C:
+		}
+	})
+	return cl
 }
 
 type workload struct {
